@@ -49,7 +49,12 @@ def read(rel: str) -> str:
         p = REPO / rel
         if not p.is_file():
             raise AnalysisError(f"anchor file vanished: {rel}")
-        _src_cache[rel] = p.read_text()
+        text = p.read_text()
+        if rel.endswith((".c", ".cpp", ".h")):
+            from . import calpha
+
+            text = calpha.restore(text, rel)
+        _src_cache[rel] = text
     consulted.add(rel)
     return _src_cache[rel]
 
@@ -343,8 +348,10 @@ class Report:
         }
         from . import alpha
 
-        if alpha.restored:
-            cov["locals_renamed_back"] = alpha.restored[:40]
+        from . import calpha
+
+        if alpha.restored or calpha.restored:
+            cov["locals_renamed_back"] = (alpha.restored + calpha.restored)[:40]
         cov.update(self.extra)
         if self.level == "proof":
             cov["obligations"] = self.obligations
